@@ -141,7 +141,7 @@ def gen(rng, tier):
         for dim in (2, 3):
             for hom in (False, True):
                 for kind in KINDS:
-                    for rep in range(3 if big else 1):
+                    for rep in range(8 if big else 2):
                         n = rng.choice([rng.randint(1, 10), rng.randint(11, 40), rng.randint(41, 600)])
                         cases.append(make_case(rng, n, dim, ty, hom, kind, 10))
     groups.append(("all-types-all-distributions", cases))
@@ -154,7 +154,7 @@ def gen(rng, tier):
     groups.append(("tiny-and-leaf-size", cases))
     # larger sets
     cases = []
-    for _ in range(40 if big else 12):
+    for _ in range(120 if big else 12):
         n = rng.randint(600, 5000) if big else rng.randint(200, 600)
         cases.append(make_case(rng, n, rng.choice([2, 3]), rng.choice(["f64", "f32"]), rng.random() < 0.5,
                                rng.choice(KINDS), 25 if big else 12))
